@@ -65,9 +65,26 @@ MULTI_KINDS = ("group", "columns", "tree", "table")
 CONTAINER_KINDS = SINGLE_KINDS + MULTI_KINDS
 CONSOLE_KINDS = ("utf8", "ascii", "legacy")
 
+def _edge_chars():
+    """Code points at the edges of the width table's ranges, taken from the table data (not from the lookup
+    under test): the first double-width range that is a single code point, the LAST code point of the first
+    multi-code-point double-width range, the last code point of the first multi-code-point zero-width range."""
+    from rich._cell_widths import CELL_WIDTHS
+    single = next(chr(a) for a, b, w in CELL_WIDTHS if a == b and w == 2)
+    last = next(chr(b) for a, b, w in CELL_WIDTHS if a < b and w == 2)
+    zero_last = next(chr(b) for a, b, w in CELL_WIDTHS if a < b and w == 0)
+    return single, last, zero_last
+
+
+WIDE_SINGLE, WIDE_LAST, ZERO_LAST = _edge_chars()
+WIDE_IN = "\u3042"                                   # a double-width code point inside its range
+# one unbreakable word mixing wide + combining + ASCII; as many double-width as zero-width code points, so
+# cells == len although a cut prefix is not one cell per character
+MIXED_WORD = WIDE_IN + "-cafe\u0301-abcdefghij"
+
 # leaf strings, most width-relevant first (a tier takes a prefix)
-TEXTS = ["ab cd", "\u3042\u3044", "a\nbb c", "a\u3042 b", "abcdefgh", "", "a", "e\u0301x", "\u3042\u3042\u3042\u3042",
-         " lead", "tab\tx"]
+TEXTS = ["ab cd", WIDE_IN + WIDE_LAST, "a\nbb c", "a" + WIDE_SINGLE + " b", MIXED_WORD, "", "a", "e\u0301x",
+         "\u3042\u3042\u3042\u3042", " lead", "tab\tx", "\u3042\u3044", "a\u3042 b", "abcdefgh"]
 HEADERS = ["h", "hd x", "\u3042h", "h4"]
 FOOTERS = ["f", "\u3042", "f g", "f4"]
 
@@ -501,15 +518,15 @@ def families(tier, seed=0, include_fixed=False):
               D2: depth 2, <=2 kids, 2 texts (+ rule/pbar/bar directly under the root), default options
               D2x1: depth 2 with a single-kid root over 2 texts, exactly 1 deviation, 1 alternative
               CH3 / CH4: all 9^3 (3 leaves) / 9^4 (2 leaves) single-kid chains, default options
-              ROT: rotating slice (seed mod 5): D1 with 0..2 deviations over one further leaf string
-    thorough  D1: depth<=1, <=3 kids, all 11 texts + rule/pbar/bar, default options
-              D1x1 / D1x2 / D1x3: depth<=1, <=2 kids, exactly 1 / 2 / 3 deviations over 11 / 5 / 2 texts
+              ROT: rotating slice (seed mod 8): D1 with 0..2 deviations over one further leaf string
+    thorough  D1: depth<=1, <=3 kids, all 14 texts + rule/pbar/bar, default options
+              D1x1 / D1x2 / D1x3: depth<=1, <=2 kids, exactly 1 / 2 / 3 deviations over 14 / 5 / 2 texts
                     (+ rule/pbar/bar for 1 and 2) with all / 2 / 1 alternatives per option
               D2: depth 2, <=2 kids, 4 texts + rule/pbar/bar under the root, 3 texts below, default options
               D2x1: depth 2, <=2 kids, 2 texts under the root, 1 text below, exactly 1 deviation
               D2x2: depth 2 single-kid containers over 2 texts, exactly 2 deviations
               D3: depth 3, <=2 kids, single-kid root, 1 text, default options
-              CH3: 9^3 chains x 11 texts; CH4: 9^4 chains x 5 texts; CH4x1: 9^4 chains x 1 text, exactly 1 deviation
+              CH3: 9^3 chains x 14 texts; CH4: 9^4 chains x 5 texts; CH4x1: 9^4 chains x 1 text, exactly 1 deviation
     include_fixed additionally offers FIXED_OPTIONS in every family with deviations and adds the family ZT
     (zero-column / zero-row tables, alone and inside each single-kid container, 0..1 deviations)."""
     fx = bool(include_fixed)
@@ -523,12 +540,12 @@ def families(tier, seed=0, include_fixed=False):
                       fixed=fx))
         F.append(_fam("CH3", base="chain", length=3, texts=3, dev=[0], alts=1, fixed=fx))
         F.append(_fam("CH4", base="chain", length=4, texts=2, dev=[0], alts=1, fixed=fx))
-        r = seed % 5
+        r = seed % (len(TEXTS) - 6)
         F.append(_fam("ROT%d" % r, base="skel", depth=1, kids=2, text_list=[TEXTS[6 + r]], others=False,
                       dev=[0, 1, 2], alts=1, fixed=fx))
     else:
-        F.append(_fam("D1", base="skel", depth=1, kids=3, texts=11, others=True, dev=[0], alts=None, fixed=fx))
-        F.append(_fam("D1x1", base="skel", depth=1, kids=2, texts=11, others=True, dev=[1], alts=None, fixed=fx))
+        F.append(_fam("D1", base="skel", depth=1, kids=3, texts=14, others=True, dev=[0], alts=None, fixed=fx))
+        F.append(_fam("D1x1", base="skel", depth=1, kids=2, texts=14, others=True, dev=[1], alts=None, fixed=fx))
         F.append(_fam("D1x2", base="skel", depth=1, kids=2, texts=5, others=True, dev=[2], alts=2, fixed=fx))
         F.append(_fam("D1x3", base="skel", depth=1, kids=2, texts=2, others=False, dev=[3], alts=1, fixed=fx))
         F.append(_fam("D2", base="skel", depth=2, kids=2, texts=4, others=True, inner_texts=3, inner_others=False,
@@ -539,7 +556,7 @@ def families(tier, seed=0, include_fixed=False):
                       fixed=fx))
         F.append(_fam("D3", base="skel", depth=3, kids=2, texts=1, others=False, exact=True, dev=[0], alts=1,
                       fixed=fx, root_single=True))
-        F.append(_fam("CH3", base="chain", length=3, texts=11, dev=[0], alts=1, fixed=fx))
+        F.append(_fam("CH3", base="chain", length=3, texts=14, dev=[0], alts=1, fixed=fx))
         F.append(_fam("CH4", base="chain", length=4, texts=5, dev=[0], alts=1, fixed=fx))
         F.append(_fam("CH4x1", base="chain", length=4, texts=1, dev=[1], alts=1, fixed=fx))
     if fx:
